@@ -124,7 +124,10 @@ class Gen:
         if k < 0.74:
             fn = r.choice(FUNCS + (PG_FUNCS if self.b == "pg" else []) + ["cust:%s" % hexs("MY_FN")])
             n = r.randrange(0, 3)
-            return "(fn %s %s)" % (fn, " ".join(self.expr(d) for _ in range(n)))
+            args = [self.expr(d) for _ in range(n)]
+            if n >= 2 and r.random() < 0.15:
+                args = [args[0]] * n          # the same argument repeated (GREATEST(a, a), COALESCE(x, x))
+            return "(fn %s %s)" % (fn, " ".join(args))
         if k < 0.76:
             return "(countdistinct %s)" % self.expr(d)
         if k < 0.80:
@@ -273,7 +276,8 @@ class Gen:
             cs.append("(distinct distinct)")
         elif r.random() < 0.05:
             cs.append("(distincton %s)" % " ".join(self.colref() for _ in range(r.randrange(0, 3))))
-        for _ in range(r.randrange(1, 4)):
+        # an empty projection (SELECT FROM t) is what the builder gives when no column was added: rare, but rendered
+        for _ in range(r.randrange(1, 4) if r.random() >= 0.03 else 0):
             k = r.random()
             if k < 0.4:
                 cs.append("(col %s)" % self.colref())
@@ -343,13 +347,21 @@ class Gen:
         if r.random() < 0.2:
             cs.append("(twhere %s)" % self.expr(d))
         k = r.random()
-        if k < 0.25:
+        if k < 0.2:
             cs.append("(nothing)")
-        elif k < 0.4:
+        elif k < 0.3:
             cs.append("(nothingon %s)" % " ".join(self.ident() for _ in range(r.randrange(1, 3))))
-        elif k < 0.9:
+        elif k < 0.75:
             for _ in range(r.randrange(1, 3)):
                 cs.append(r.choice(["(updcol %s)" % self.ident(), "(updexpr %s %s)" % (self.ident(), self.expr(d))]))
+            if r.random() < 0.3:
+                cs.append("(awhere %s)" % self.expr(d))
+        elif k < 0.92:
+            # a HISTORY of action calls: do_nothing / do_nothing_on / update_column / value in any order (the last
+            # kind of call decides the action, updates accumulate)
+            for _ in range(r.randrange(2, 5)):
+                cs.append(r.choice(["(nothing)", "(nothingon %s)" % self.ident(), "(updcol %s)" % self.ident(),
+                                    "(updexpr %s %s)" % (self.ident(), self.expr(d))]))
             if r.random() < 0.3:
                 cs.append("(awhere %s)" % self.expr(d))
         return "(onconflict %s)" % " ".join(cs)
@@ -364,12 +376,28 @@ class Gen:
         ncol = r.choice([0, 1, 2, 2, 3])
         if ncol or r.random() < 0.5:
             cs.append("(columns %s)" % " ".join(self.ident() for _ in range(ncol)) if ncol else "(columns)")
+        def row(n):
+            return " ".join(self.expr(d) for _ in range(n))
         k = r.random()
-        if k < 0.6:
+        if k < 0.5:
             for _ in range(r.randrange(0, 4)):
                 n = ncol if r.random() < 0.8 else r.randrange(0, 4)
                 op = r.choice(["values", "values", "valuespanic"])
-                cs.append("(%s %s)" % (op, " ".join(self.expr(d) for _ in range(n))) if n else "(%s)" % op)
+                cs.append("(%s %s)" % (op, row(n)) if n else "(%s)" % op)
+        elif k < 0.65:
+            # a HISTORY of source calls: rows one by one, rows in bulk (values_from_panic), a SELECT source, in any
+            # order (a later kind of source replaces an earlier one, rows of the same kind accumulate)
+            for _ in range(r.randrange(2, 5)):
+                kk = r.random()
+                if kk < 0.35:
+                    cs.append("(%s %s)" % (r.choice(["values", "valuespanic"]), row(ncol)) if ncol else "(values)")
+                elif kk < 0.7:
+                    cs.append("(valuesfrompanic %s)" % " ".join("(row %s)" % row(ncol) if ncol else "(row)"
+                                                                 for _ in range(r.randrange(0, 3))))
+                elif kk < 0.9 and d > 0:
+                    cs.append("(selectfrom %s)" % self.select(d - 1))
+                else:
+                    cs.append(r.choice(["(ordefault)", "(ordefaultmany %d)" % r.randrange(0, 3)]))
         elif k < 0.8 and d > 0:
             cs.append("(selectfrom %s)" % self.select(d - 1))
         elif k < 0.9:
